@@ -97,22 +97,24 @@ PROPS = {
         "verus": [],
         "level_text": "MerkleTree::verify: exact path recomputation stated over the recorded merge calls of an arbitrary hash "
                       "function (proof lengths 1-3, every index); map_indexes / domain-length functions over every depth; "
-                      "get_root / verify_batch / into_openings panic-free on malformed inputs for enumerated shapes with "
+                      "get_root / verify_batch panic-free on malformed inputs for enumerated shapes with "
                       "symbolic contents.",
         "level_note": "Trusted: BTreeMap/BTreeSet replaced by a sorted-Vec model under cfg(kani) (real B-tree internals do not "
                       "terminate in CBMC); rejection of wrong data assumes a collision-free hasher (standard). Shapes outside "
-                      "the enumeration and depth > 3 for batch functions are not covered.",
+                      "the enumeration and depth > 3 for batch functions are not covered. NOT under contract: into_openings on "
+                      "malformed input (the one-index instance did not finish in 30 minutes).",
     },
     "C18": {
         "level": "model_checking",
         "kani": ["c19_merkle"],
         "verus": [],
-        "level_text": "Consistency contracts among new/prove/verify/prove_batch/verify_batch/get_root/from_single_proofs/"
-                      "into_openings for every hash function that is a function (cheap mixing hasher), on 2- and 4-leaf "
+        "level_text": "Consistency contracts among new/prove/verify/prove_batch/verify_batch/get_root "
+                      "for every hash function that is a function (cheap mixing hasher), on 2- and 4-leaf "
                       "trees with symbolic digests; batch routes on enumerated concrete index sequences.",
         "level_note": "Bounded: trees of 2 and 4 leaves, listed index sequences. BTree model as for C19. The parallel "
-                      "(rayon) build is not covered: Kani has no thread support. from_single_proofs / into_openings "
-                      "equality with the single openings is NOT decided in the quick tier (CBMC does not terminate on them).",
+                      "(rayon) build is not covered: Kani has no thread support. NOT under contract: from_single_proofs and "
+                      "into_openings (equality with the single openings): CBMC does not finish even a one-index instance on a "
+                      "2-leaf tree in 35 minutes.",
     },
     "C03": {
         "level": "model_checking",
